@@ -171,12 +171,14 @@ def run(repo: Repo, chk: Check, thorough: bool = False) -> None:
            'operator `a-(b-c)`, `a/(b*c)`, `a<<(b<<c)` lose their parentheses and change meaning. slice: ' + slice_txt[:300], init.loc)
     # (b') the operand-side rule holds for every binary operator but **: no exemption by operator class
     opclasses = {c.__name__ for c in ast.operator.__subclasses__()} - {'Pow'}
+    seen_conds: Set[str] = set()
     for x in sl:
         for n in ast.walk(x):
             if isinstance(n, ast.If) or isinstance(n, ast.BoolOp):
                 cond = n.test if isinstance(n, ast.If) else n
                 txt = norm(cond)
-                if ('.right' in txt or '.left' in txt) and ' is ' in txt:
+                if ('.right' in txt or '.left' in txt) and ' is ' in txt and txt not in seen_conds:
+                    seen_conds.add(txt)
                     exempt = sorted({d[4:] for d in (dotted(a) or '' for a in ast.walk(cond)) if d.startswith('ast.') and d[4:] in opclasses})
                     chk.ob('R15.3', f'{DELIM}.__init__ :: operand-side rule applies to every operator', not exempt,
                            'no operator class is exempted' if not exempt else
